@@ -8,8 +8,8 @@
 EXTENDS TraceCommon, Metric
 
 VARIABLES recs, expr, ents, open, flat,
-          grid, expAt, matched, lastV, returned
-fam == <<recs, expr, ents, open, flat, grid, expAt, matched, lastV, returned>>
+          grid, expAt, matched, lastV, returned, inst
+fam == <<recs, expr, ents, open, flat, grid, expAt, matched, lastV, returned, inst>>
 vars == <<tcvars, fam>>
 
 NoExpr == [t |-> "vector", v |-> <<0, 1>>]
@@ -96,22 +96,27 @@ TopAt(T) == IF flat.on THEN LET outs == Outcomes(FlatTreeDev(flat.f)) IN
                  [must |-> {}, may |-> {[L |-> {}, v |-> o, sq |-> FALSE] : o \in outs \ {Absent}},
                   \* exactly one sample unless the chain may yield nothing (or its value is outside the exact arithmetic)
                   count |-> IF Absent \in outs \/ \E o \in outs : IsOpen(o) THEN 0 - 2 ELSE 1]
+            \* a query that is one number: that number at every instant, without labels (evalLiteral)
+            ELSE IF expr.t = "lit" THEN [must |-> {[L |-> {}, v |-> LitV(expr.v), sq |-> FALSE]}, may |-> {}, count |-> 1]
             ELSE EvalTop(expr, ents, T)
+IsLitTop == ~flat.on /\ expr.t = "lit"
 
 Init == TCInit /\ recs = <<>> /\ expr = NoExpr /\ ents = <<>> /\ open = FALSE /\ flat = [on |-> FALSE, f |-> <<>>]
-        /\ grid = {} /\ expAt = <<>> /\ matched = {} /\ lastV = <<>> /\ returned = FALSE
+        /\ grid = {} /\ expAt = <<>> /\ matched = {} /\ lastV = <<>> /\ returned = FALSE /\ inst = FALSE
 Start == Begin /\ recs' = Trace[l].in.recs
          /\ flat' = (IF Has(Trace[l].in, "flat") THEN [on |-> TRUE, f |-> Trace[l].in.flat] ELSE [on |-> FALSE, f |-> <<>>])
          /\ expr' = (IF Has(Trace[l].in, "flat") THEN NoExpr ELSE Trace[l].in.expr)
          /\ ents' = (IF Has(Trace[l].in, "flat") THEN <<>> ELSE EntsOf(Trace[l].in.expr, Trace[l].in.recs))
          /\ open' = (IF Has(Trace[l].in, "flat") THEN FALSE ELSE OpenExpr(Trace[l].in.expr, EntsOf(Trace[l].in.expr, Trace[l].in.recs)))
-         /\ grid' = {} /\ expAt' = <<>> /\ matched' = {} /\ lastV' = <<>> /\ returned' = FALSE
+         /\ grid' = {} /\ expAt' = <<>> /\ matched' = {} /\ lastV' = <<>> /\ returned' = FALSE /\ inst' = FALSE
 
 \* assumption of the family: records are listed in time order (the storage returns them so; first/last depend on it)
 CaseOk == \A i \in 1..(Len(recs) - 1) : TsLeq(recs[i].ts, recs[i + 1].ts)
 BadCase == RejectEnv /\ Ev.ev = "Run" /\ ~CaseOk /\ UNCHANGED fam
 EvRun == IsEv("Run") /\ CaseOk /\ Accept /\ grid' = GridOf(Ev) /\ expAt' = [T \in GridOf(Ev) |-> TopAt(T)] /\ matched' = {} /\ lastV' = <<>>
          /\ returned' = FALSE /\ UNCHANGED <<recs, expr, ents, open, flat>>
+         \* an instant query: start = end and no step
+         /\ inst' = (Ev.step = 0 /\ MsOf(Ev, "stepMs") = 0 /\ Ev.start = Ev.end /\ MsOf(Ev, "startMs") = MsOf(Ev, "endMs") /\ MsOf(Ev, "startNs") = MsOf(Ev, "endNs"))
 
 \* (the harness projects a float to the simplest rational within its tolerance: exact and rounded values alike)
 ValEq(s, ev) == IF s.v.k = "open" THEN TRUE ELSE IF s.sq THEN ev.sq.t = "rat" /\ IsRat(s.v) /\ ev.sq.n = s.v.n /\ ev.sq.d = s.v.d
@@ -125,23 +130,29 @@ SortOk == IF ~IsSort \/ Cardinality(grid) # 1 \/ lastV = <<>> \/ Ev.val.t # "rat
           \* (projections of irrational values have large terms: their order is not compared exactly)
           ELSE IF ~SmallR([n |-> Ev.val.n, d |-> Ev.val.d]) \/ ~SmallR(lastV[1]) THEN TRUE
           ELSE IF expr.op = "sort" THEN ~RLt([n |-> Ev.val.n, d |-> Ev.val.d], lastV[1]) ELSE ~RLt(lastV[1], [n |-> Ev.val.n, d |-> Ev.val.d])
-PointOk == ~returned /\ OnGrid(Ev.t) /\ (open \/ (FitsAt(GridT(Ev.t), Ev) # {} /\ SortOk))
+\* (a number evaluated at one instant is a scalar, not a vector of one sample)
+PointOk == ~returned /\ OnGrid(Ev.t) /\ (open \/ (FitsAt(GridT(Ev.t), Ev) # {} /\ SortOk)) /\ ~(IsLitTop /\ inst)
+ScalarAsPoint == [labels |-> <<>>, val |-> Ev.val, sq |-> Ev.val]
+ScalarOk == ~returned /\ IsLitTop /\ inst /\ OnGrid(Ev.t) /\ FitsAt(GridT(Ev.t), ScalarAsPoint) # {}
+EvScalar == IsEv("Scalar") /\ ScalarOk /\ Accept /\ matched' = matched \cup {<<GridT(Ev.t), {}>>}
+            /\ UNCHANGED <<recs, expr, ents, open, flat, grid, expAt, returned, lastV, inst>>
 EvPoint == IsEv("Point") /\ PointOk /\ Accept
            /\ matched' = (IF open THEN matched ELSE matched \cup {<<GridT(Ev.t), PairsOf(Ev.labels)>>})
            /\ lastV' = (IF Ev.val.t = "rat" THEN <<[n |-> Ev.val.n, d |-> Ev.val.d]>> ELSE lastV)
-           /\ UNCHANGED <<recs, expr, ents, open, flat, grid, expAt, returned>>
+           /\ UNCHANGED <<recs, expr, ents, open, flat, grid, expAt, returned, inst>>
 
 MatchedAt(T) == {m \in matched : m[1] = T}
 CompleteAt(T) == /\ \A s \in expAt[T].must : <<T, s.L>> \in matched
                  /\ (expAt[T].count >= 0 => Cardinality(MatchedAt(T)) = expAt[T].count)
 ReturnOk == ~returned /\ Ev.outcome = "ok" /\ (open \/ \A T \in grid : CompleteAt(T))
-EvReturn == IsEv("Return") /\ ReturnOk /\ Accept /\ returned' = TRUE /\ UNCHANGED <<recs, expr, ents, open, flat, grid, expAt, matched, lastV>>
+EvReturn == IsEv("Return") /\ ReturnOk /\ Accept /\ returned' = TRUE /\ UNCHANGED <<recs, expr, ents, open, flat, grid, expAt, matched, lastV, inst>>
 
 Explained == \/ Ev.ev \in {"Run", "StorageSelect"}
              \/ Ev.ev = "Point" /\ PointOk
              \/ Ev.ev = "Return" /\ ReturnOk
+             \/ Ev.ev = "Scalar" /\ ScalarOk
 EvFree == IsEv("StorageSelect") /\ Accept /\ UNCHANGED fam
 Bad  == Reject /\ ~Explained /\ UNCHANGED fam
-Next == Start \/ BadCase \/ EvRun \/ EvPoint \/ EvReturn \/ EvFree \/ Bad \/ (Skipped /\ UNCHANGED fam) \/ (Finish /\ UNCHANGED fam)
+Next == Start \/ BadCase \/ EvRun \/ EvPoint \/ EvScalar \/ EvReturn \/ EvFree \/ Bad \/ (Skipped /\ UNCHANGED fam) \/ (Finish /\ UNCHANGED fam)
 TraceSpec == Init /\ [][Next]_vars
 =============================================================================
